@@ -8,7 +8,7 @@ from common import hx
 
 LEAN_MODULES = ["Pff.Props.C17", "Pff.Props.Csv", "Pff.Props.Path", "Pff.Props.RfigcDb"]
 PROP_MODULE = "Pff.Props.C17"
-THEOREMS = ["Pff.Rfigc.C17_recover", "Pff.Rfigc.C17_complete", "Pff.Rfigc.C17_unknown_ignored",
+THEOREMS = ["Pff.Rfigc.C17_recover", "Pff.Rfigc.C17_complete", "Pff.Rfigc.C17_unknown_ignored", "Pff.Rfigc.C17_md5_twins_recovered",
             "Pff.Csv.C05_csv_roundtrip",
             "Pff.Csv.C05_db_roundtrip",
             "Pff.RfigcDb.C05_db_file_roundtrip",
@@ -37,6 +37,21 @@ def run(oc, tier, seed, model_available, escalate):
     for i in range(n):
         ru.rmtree(d)
         tree = ru.gen_tree(rng)
+        foreign_twin = None
+        if i % 6 == 2:
+            # directed: two RECORDED files with different contents and the same md5 (the published collision pair + a common suffix): both
+            # must be recovered - a file is told by both its hashes together
+            suf = bytes(rng.randrange(256) for _ in range(rng.choice([0, 3, 30])))
+            tree["twins/first.bin"] = (ru.MD5_TWINS[0] + suf, ru.BASE_NS)
+            tree[rng.choice(["twins/second.bin", "zz second.bin", "a_second.bin"])] = (ru.MD5_TWINS[1] + suf, ru.BASE_NS + 5 * 10**9)
+            oc.count("directed: two recorded files sharing their md5")
+        elif i % 6 == 4:
+            # directed: ONE recorded file of the pair; its md5 twin lies in the scraped folder as an unknown file (walked before or after
+            # the genuine copy): it must create nothing and must not keep the genuine copy from being recovered
+            suf = bytes(rng.randrange(256) for _ in range(rng.choice([0, 3, 30])))
+            tree["data/blob.bin"] = (ru.MD5_TWINS[0] + suf, ru.BASE_NS)
+            foreign_twin = ru.MD5_TWINS[1] + suf
+            oc.count("directed: unknown scraped file sharing its md5 with a recorded file")
         root = os.path.join(d, "orig")
         ru.write_tree(root, tree)
         db = os.path.join(d, "db.csv")
@@ -65,7 +80,19 @@ def run(oc, tier, seed, model_available, escalate):
             k += 1
             scraped["unknown%d.bin" % k] = b"unknown-%d-%d" % (i, k)
             extra = True
-        ru.write_tree(scr, {p: (c, ru.BASE_NS + 77 * 10**9) for p, c in scraped.items()})
+        if foreign_twin is not None:
+            scraped[rng.choice(["000 twin.bin", "zzz twin.bin", "x/twin"])] = foreign_twin
+            if not any(c == tree["data/blob.bin"][0] for c in scraped.values()):
+                scraped["genuine.chk"] = tree["data/blob.bin"][0]
+            extra = True
+        # modification times of the scraped files: mostly unrelated to the recorded ones (files carved out of an image), but some keep EXACTLY
+        # their recorded time (renamed or moved in place, copied with preserved attributes): the recorded time must be on the output either way
+        rec_m = {c_: m_ for (c_, m_) in tree.values()}
+        keep_times = rng.random() < 0.5
+        ru.write_tree(scr, {p: (c, rec_m[c] if (keep_times and c in rec_m and rng.random() < 0.7) else ru.BASE_NS + 77 * 10**9)
+                            for p, c in scraped.items()})
+        if keep_times:
+            oc.count("scraped files keeping their recorded modification time")
         out = os.path.join(d, out_name)
         os.makedirs(out)
         logopt = ["-l", os.path.join(d, "scrape.log")] if i % 3 == 1 else []      # with a log file: every message is also written there
